@@ -124,6 +124,17 @@ class InitMemRefAllocMemorySpace(RewritePattern):
         rewriter.replace_op(op, new_op, new_results=[new_op.memref])
 
 
+def _is_defined_before(cast_op: Operation, user: Operation) -> bool:
+    """True if cast_op is in the block of `user` or of one of its ancestors and comes before it there."""
+    block = cast_op.parent_block()
+    anc: Operation | None = user
+    while anc is not None and anc.parent_block() is not block:
+        anc = anc.parent_op()
+    if anc is None or block is None:
+        return False
+    return block.get_operation_index(cast_op) < block.get_operation_index(anc)
+
+
 class InitStreamAndLinalgMemorySpace(RewritePattern):
     """
     Convert all linalg.generics and stream.streaming region ops to only use L1
@@ -148,6 +159,7 @@ class InitStreamAndLinalgMemorySpace(RewritePattern):
                     isinstance(use.operation, memref.MemorySpaceCastOp)
                     and isinstance(use_type := use.operation.dest.type, builtin.MemRefType)
                     and use_type.memory_space == L1.attribute
+                    and _is_defined_before(use.operation, op)
                 ):
                     cast_op = use.operation
                     break
